@@ -35,6 +35,8 @@ def must_see(tier):
         m[impl + ':reopened'] = 30
         m[impl + ':reopened-with-other-node-sizes'] = 10
         m[impl + ':load-refused'] = 10
+    m['single-change:commit'] = 5000
+    m['single-change:abort'] = 5000
     return m
 
 
@@ -79,6 +81,200 @@ def run_shard(spec, rec):
         for h in range(spec['histories']):
             rng = rng_for(spec['seed'], ID, spec['family'], impl, kind, h)
             run_history(fam, kind, impl, rng, rec, h)
+        for j in range(spec.get('matrices', 1)):
+            rng = rng_for(spec['seed'], ID, spec['family'], impl, kind,
+                          'single', j)
+            run_single_changes(fam, kind, impl, rng, rec)
+
+
+# ---------------------------------------------------------------------------
+# one change per transaction: every kind of writing call, at every key of a
+# small stored container of every shape class, with every value of the
+# palette, is the ONLY modification of its transaction; then commit (fresh
+# reader) or abort (writer restored).  A missing announcement cannot hide
+# behind another change of the same node here.
+
+def _single_cases(fam, is_mapping, present, absent, values, rng):
+    out = []
+    if is_mapping:
+        for k in present:
+            for v in values:
+                out.append(('setitem', (k, v)))
+            out += [('delitem', (k,)), ('pop', (k,)),
+                    ('setdefault', (k, rng.choice(values))),
+                    ('SAME-OBJECT', (k,)), ('SAME-VALUE', (k,))]
+        for k in absent[:4]:
+            v = rng.choice(values)
+            out += [('setitem', (k, v)), ('setdefault', (k, v)),
+                    ('update', (('PAIRS', [(k, v)]),)),
+                    ('popd', (k, v)), ('delitem', (k,))]
+        out += [('popitem', ()), ('clear', ()),
+                ('update', (('PAIRS', []),))]
+    else:
+        for k in present:
+            out += [('remove', (k,)), ('discard', (k,)), ('add', (k,)),
+                    ('isub', (('LIST', [k]),)), ('ixor', (('LIST', [k]),)),
+                    ('iand', (('LIST', [x for x in present if x != k]),))]
+        for k in absent[:4]:
+            out += [('add', (k,)), ('discard', (k,)), ('remove', (k,)),
+                    ('supdate', (('LIST', [k]),)), ('ior', (('LIST', [k]),)),
+                    ('ixor', (('LIST', [k]),))]
+        out += [('spop', ()), ('clear', ()), ('iand', (('LIST', []),)),
+                ('isub', (('SELF', []),))]
+    return out
+
+
+def run_single_changes(fam, kind, impl, rng, rec):
+    import copy
+    from ..model import RefMap, RefSet
+    is_tree = kind in families.TREE_KINDS
+    is_mapping = kind in families.MAPPING_KINDS
+    sizes = (2, 3) if is_tree else None
+    cls = fam.cls(kind, impl)
+    if sizes:
+        harness.set_node_sizes(cls, *sizes)
+    g = gen.HistoryGen(fam, kind, rng)
+    uni = [k for k in families.sort_keys(list(dict.fromkeys(g.universe)))]
+    values = list(g.values)
+    if impl == 'py' and fam.vc == 'F':
+        values = [v for v in values if families.f32(v) == v]
+    shapes = ['embedded', 'multi', 'shrunk', 'empty'] if is_tree else \
+        ['some', 'empty']
+    for shape in shapes:
+        # ---- the base container, committed ---------------------------------
+        storage = minidb.Storage()
+        conn = minidb.Connection(storage, impl)
+        conn.log_events = False
+        c = cls()
+        root_oid = conn.add(c)
+        n = {'embedded': 2, 'multi': 9, 'shrunk': 9, 'empty': 0,
+             'some': 5}[shape]
+        ks = rng.sample(uni, min(n, len(uni)))
+        for k in ks:
+            if is_mapping:
+                c[k] = rng.choice(values)
+            else:
+                c.add(k)
+        if is_tree and walker.walk(c, is_mapping).inline_nonroot:
+            continue            # (F22 shape: C06's / this check's finding)
+        conn.commit()
+        if shape == 'shrunk':
+            # back to ONE leaf, which has a record of its own by now
+            for k in families.sort_keys(ks)[2:]:
+                if is_mapping:
+                    del c[k]
+                else:
+                    c.remove(k)
+            w = walker.walk(c, is_mapping)
+            if w.inline_nonroot:
+                continue
+            del w
+            conn.commit()
+            if minidb.embedded_but_leaf_has_oid(conn, c):
+                continue        # (F34 condition)
+        base = harness.contents(c, is_mapping)
+        present = [x[0] for x in base] if is_mapping else list(base)
+        absent = [k for k in uni if k not in present]
+        rng.shuffle(absent)
+        del c, conn
+        cases = _single_cases(fam, is_mapping, present, absent, values, rng)
+        for op, args in cases:
+            for boundary in ('commit', 'abort'):
+                st = copy.deepcopy(storage)
+                conn = minidb.Connection(st, impl)
+                conn.log_events = False
+                c = conn.get(root_oid)
+                m = RefMap(fam) if is_mapping else RefSet(fam)
+                if is_mapping:
+                    m.d = dict(base)
+                else:
+                    m.s = set(base)
+                desc = dict(family=fam.name, kind=kind, impl=impl,
+                            sizes=sizes, shape=shape, op=op,
+                            args=brief(args, 120), boundary=boundary,
+                            base=brief(base, 200))
+                rec.journal(repr(desc))
+                try:
+                    if op == 'SAME-OBJECT':
+                        # v = t[k]; (mutate v); t[k] = v
+                        k = args[0]
+                        v = c[k]
+                        if isinstance(v, list):
+                            v.append('x')
+                            m.d[k] = list(v)
+                        c[k] = v
+                        del v
+                    elif op == 'SAME-VALUE':
+                        k = args[0]
+                        c[k] = m.d[k]
+                    else:
+                        rargs = tuple(gen.materialize(a, fam, impl, c, False)
+                                      for a in args)
+                        margs = tuple(gen.materialize(a, fam, impl, m, True)
+                                      for a in args)
+                        ro = harness.call(c, op, rargs)
+                        mo = harness.call(m, op, margs)
+                        if ro[0] != mo[0]:
+                            # (what a call returns is C01's business)
+                            got_ = harness.contents(c, is_mapping)
+                            if is_mapping:
+                                m.d = dict(got_)
+                            else:
+                                m.s = set(got_)
+                except Exception as e:
+                    rec.violation('single-change-harness', detail='%s: %s' % (
+                        type(e).__name__, e), **desc)
+                    return
+                want = m.contents()
+                try:
+                    now = harness.contents(c, is_mapping)
+                except Exception as e:
+                    rec.violation('contents-raised', detail='%s: %s' % (
+                        type(e).__name__, e), **desc)
+                    continue
+                if not eq(now, want):
+                    # the call itself misbehaved (C01's business): follow it
+                    want = now
+                changed = not eq(want, base) or op == 'SAME-OBJECT'
+                rec.evaluations += 1
+                rec.ev('single-change:' + boundary)
+                rec.seen(impl, kind, 'single', shape, op, boundary, changed)
+                if boundary == 'commit':
+                    try:
+                        conn.commit()
+                    except Exception as e:
+                        rec.violation('commit-raised', detail='%s: %s' % (
+                            type(e).__name__, e), **desc)
+                        continue
+                    impl2 = impl if rng.random() < .5 else \
+                        ('py' if impl == 'c' else 'c')
+                    errs = reader_check(st, root_oid, impl2, is_mapping,
+                                        is_tree, want, sizes=False)
+                    if errs:
+                        rec.violation('lost-or-damaged-after-commit',
+                                      reader_impl=impl2, errors=errs[:3],
+                                      single_change=True, **desc)
+                else:
+                    conn.abort()
+                    try:
+                        got = harness.contents(c, is_mapping)
+                    except Exception as e:
+                        rec.violation('abort-contents-raised',
+                                      detail='%s: %s' % (type(e).__name__, e),
+                                      **desc)
+                        continue
+                    if not eq(got, base):
+                        rec.violation('abort-did-not-restore',
+                                      observed=brief(got, 300),
+                                      expected=brief(base, 300),
+                                      single_change=True, **desc)
+                    elif is_tree:
+                        serrs, _w = hist.structural_checks(c, is_mapping,
+                                                           sizes=False)
+                        if serrs:
+                            rec.violation('abort-left-damaged-tree',
+                                          errors=serrs[:3], **desc)
+                del c, conn, st
 
 
 def run_history(fam, kind, impl, rng, rec, h):
